@@ -451,6 +451,25 @@ def _bounds(n):
     return (False, _BIG, 0)
 
 
+def folds_const(n):
+    """True/False when the public constructors fold this boolean tree to the true()/false() singleton
+    (not_(const), and_/or_ short-circuit on / dropping of constants), else None"""
+    k = n[0]
+    if k == "const":
+        return bool(n[2])
+    if k == "not":
+        v = folds_const(n[2])
+        return None if v is None else (not v)
+    if k in ("and", "or"):
+        vals = [folds_const(c) for c in n[2]]
+        skip = k == "or"  # or_: true() wins, false() is dropped; and_: false() wins, true() is dropped
+        if any(v is skip for v in vals):
+            return skip
+        if all(v is (not skip) for v in vals):
+            return not skip
+    return None
+
+
 def normalise(n):
     """deterministic, idempotent rewrite that keeps the tree inside the sound value domain:
     an associative arithmetic node (add/mul) whose *right* operand is the same operator would be
@@ -490,7 +509,7 @@ def normalise(n):
         out[3] = [normalise(c) for c in n[3]]
     else:
         raise ValueError(k)
-    if k == "cmp" and out[4][0] == "const" and out[2] in ("lt", "le", "gt", "ge"):
+    if k == "cmp" and folds_const(out[4]) is not None and out[2] in ("lt", "le", "gt", "ge"):
         # documented: only = != IS [NOT] [DISTINCT FROM] accept a true()/false()/null() right operand (ArgumentError otherwise)
         out[2] = "ne"
     if k == "ar" and out[2] in ("add", "mul"):
